@@ -234,7 +234,8 @@ SCR_CORRUPTIONS = [
     ("Truncated cleared", lambda e: e["op"] == "scr" and e["pkt"]["trunc"] and any(r["trunc"] for r in e["res"]),
      lambda e: [r.__setitem__("trunc", False) for r in e["res"]])]
 REAL_CORRUPTIONS = [
-    ("field digest changed", lambda e: e["op"] == "rl" and any(len(r["types"]) >= 2 for r in e["res"]),
+    ("field digest changed", lambda e: e["op"] == "rl" and any(len(r["types"]) >= 2 for r in e["res"])
+     and len(e["pkt"]["ls"]) >= 2 and e["pkt"]["ls"][0]["emb"] == 0 and e["pkt"]["ls"][1]["emb"] == 0,
      lambda e: e["pkt"]["ls"][1].__setitem__("d", "0" * 16)),
     ("unsupported-layer error dropped", lambda e: e["op"] == "rl" and any(r["err"] == "unsup" for r in e["res"]),
      lambda e: [r.__setitem__("err", "none") for r in e["res"] if r["err"] == "unsup"]),
